@@ -1,0 +1,32 @@
+package plenccodec
+
+import "strings"
+
+// nestedError is returned when reading part of a value fails: it says where
+// (which field of which type) and wraps the error from the level below.
+//
+// The message is put together only when it is asked for. Formatting it
+// eagerly at every level (fmt.Errorf with %w copies the whole message of the
+// level below) makes a failed read of a deeply nested value cost memory
+// quadratic in the depth of the nesting.
+type nestedError struct {
+	where string
+	err   error
+}
+
+func (e *nestedError) Unwrap() error { return e.err }
+
+func (e *nestedError) Error() string {
+	var b strings.Builder
+	var err error = e
+	for {
+		ne, ok := err.(*nestedError)
+		if !ok {
+			b.WriteString(err.Error())
+			return b.String()
+		}
+		b.WriteString(ne.where)
+		b.WriteString(". ")
+		err = ne.err
+	}
+}
